@@ -341,4 +341,408 @@ theorem frameLoop_exec_ind (d : Dfsr) (st : Store) (t : Nat) (bs : List Nat) (n 
           simp only [xsFrom, setVals, hx1]
           rw [show frInt + (j + 1) + 1 = frInt + j + 1 + 1 by omega, show frInt + (j + 1) = frInt + j + 1 by omega]
 
+
+/-! ### the first event of a frame is the read of the run that starts at the first selected channel -/
+
+def IsFirstRead (c0 : Nat) (e : Ev) : Prop := e.ty = .read ∧ e.cf = some c0 ∧ e.ct.isSome
+
+theorem frameEvLoop_first (p : Plan) (cs : List Nat) :
+    ∀ (chStart stopP1 siz : Nat) (acc : List Ev) acc' cS sP sz,
+    frameEvLoop p cs chStart stopP1 siz acc = (acc', cS, sP, sz) →
+    (acc ≠ [] → acc'.head? = acc.head?) ∧
+    (acc = [] → stopP1 > chStart →
+      ∃ e, (acc' ++ [(⟨.read, sz, none, some cS, some (sP - 1)⟩ : Ev)]).head? = some e ∧ IsFirstRead chStart e) := by
+  induction cs with
+  | nil =>
+    intro chStart stopP1 siz acc acc' cS sP sz h
+    simp only [frameEvLoop, Prod.mk.injEq] at h
+    obtain ⟨rfl, rfl, rfl, rfl⟩ := h
+    exact ⟨fun _ => rfl, fun ha _ => by subst ha; exact ⟨_, rfl, rfl, rfl, rfl⟩⟩
+  | cons c cs ih =>
+    intro chStart stopP1 siz acc acc' cS sP sz h
+    simp only [frameEvLoop] at h
+    by_cases heq : c = stopP1
+    · simp only [heq, if_true] at h
+      obtain ⟨h5, h6⟩ := ih chStart (stopP1 + 1) _ acc acc' cS sP sz h
+      exact ⟨h5, fun ha hg => h6 ha (by omega)⟩
+    · simp only [heq, if_false] at h
+      obtain ⟨h5, _⟩ := ih c (c + 1) _ _ acc' cS sP sz h
+      have h5' := h5 (by simp)
+      constructor
+      · intro hne
+        rw [h5']
+        cases acc with
+        | nil => exact absurd rfl hne
+        | cons a as => by_cases hg : stopP1 > chStart <;> simp [hg]
+      · intro ha hg
+        subst ha
+        simp only [hg, if_true, List.nil_append, List.cons_append, List.head?_cons] at h5'
+        cases acc' with
+        | nil => simp at h5'
+        | cons a as =>
+          simp only [List.head?_cons, Option.some.injEq] at h5'
+          exact ⟨a, by simp, by rw [h5']; exact ⟨rfl, rfl, rfl⟩⟩
+
+theorem retFrameEvents_first (p : Plan) (c0 : Nat) (rest : List Nat) (pre post : Option Ev) (fevts : List Ev)
+    (hret : retFrameEvents p (c0 :: rest) = (pre, fevts, post)) :
+    ∃ e es, fevts = e :: es ∧ IsFirstRead c0 e := by
+  unfold retFrameEvents at hret
+  simp only at hret
+  have hstep : frameEvLoop p (c0 :: rest) c0 c0 0 [] = frameEvLoop p rest c0 (c0 + 1) (0 + p.chSize c0) [] := by
+    simp [frameEvLoop]
+  rw [hstep] at hret
+  cases hr : frameEvLoop p rest c0 (c0 + 1) (0 + p.chSize c0) [] with
+  | mk acc' r2 =>
+    obtain ⟨cS, sP, sz⟩ := r2
+    rw [hr] at hret
+    simp only [Prod.mk.injEq] at hret
+    obtain ⟨_, hfev, _⟩ := hret
+    have hgtP := frameEvLoop_gt p rest c0 (c0 + 1) _ [] acc' cS sP sz hr (by omega)
+    simp only [hgtP, if_true] at hfev
+    obtain ⟨e, he, hf⟩ := (frameEvLoop_first p rest c0 (c0 + 1) _ [] acc' cS sP sz hr).2 rfl (by omega)
+    rw [hfev] at he
+    cases fevts with
+    | nil => simp at he
+    | cons x xs => simp at he; subst he; exact ⟨_, _, rfl, hf⟩
+
+
+/-! ### `genEvents` with an indirect word -/
+
+/-- the head of `genEvents` with an indirect word of `p.indr` bytes -/
+def headInd (p : Plan) (pre : Option Ev) (a : Nat) : List Ev :=
+  match pre with
+  | some pr => ([(⟨.read, p.indr, none, none, none⟩ : Ev)] ++ (if a > 0 then [⟨.extrap, a, some a, none, none⟩] else []))
+      ++ [⟨pr.ty, a * p.frameSize + pr.siz, some a, pr.cf, pr.ct⟩]
+  | none => if a > 0 then [⟨.read, p.indr, none, none, none⟩, ⟨.skip, a * p.frameSize, some a, none, some 0⟩,
+      ⟨.extrap, a, some a, none, none⟩] else []
+
+/-- the pending indirect read (merged into the first read) -/
+def pendInd (p : Plan) (pre : Option Ev) (a : Nat) : Option Nat :=
+  match pre with
+  | some _ => none
+  | none => if a > 0 then none else some p.indr
+
+theorem genEvents_ind (p : Plan) (cs : List Nat) (a b c : Nat) (pre post : Option Ev) (fevts : List Ev)
+    (hpi : p.indr > 0) (hne : cs ≠ []) (hsorted : cs.Pairwise (· < ·)) (hlt : ∀ x ∈ cs, x < p.numChannels)
+    (hab : a < b) (hc : 0 < c) (hret : retFrameEvents p cs = (pre, fevts, post)) :
+    genEvents p a b c cs = .ok (headInd p pre a ++
+      frameLoop p fevts post (mergedPostFramePre p pre post c) b c (b - a) a (pendInd p pre a)) := by
+  have hchk : checkChIdx p cs = .ok cs := by
+    unfold checkChIdx
+    rw [sortDedup_of_sorted _ hsorted]
+    simp only
+    cases hl : cs.getLast? with
+    | none => rfl
+    | some x =>
+      have := hlt x (List.mem_of_getLast? hl)
+      simp [show ¬ x ≥ p.numChannels by omega]
+  have hc0 : ¬ c = 0 := by omega
+  have hlen : cs.length > 0 := by cases cs with | nil => exact absurd rfl hne | cons x xs => simp
+  unfold genEvents
+  simp only [hchk, hc0, if_false, hlen, hab, and_self, if_true, hret, hpi]
+  unfold headInd pendInd
+  cases pre with
+  | some pr => simp
+  | none =>
+    by_cases ha : 0 < a
+    · simp [ha]
+    · simp [ha]
+
+/-- a merged indirect + channel read behaves like the indirect read followed by the channel read (up to the log) -/
+theorem merged_transfer (d : Dfsr) (p : Plan) (w : Nat) (hi : IndCtx d p w) (st : Store) (r r' : Run) (t : Nat)
+    (bs : List Nat) (fr siz1 ct1 : Nat) (R : List Ev) (hcur : r.cur = some (t, bs))
+    (h : execEvs d st (⟨.read, w, some fr, none, none⟩ :: ⟨.read, siz1, some fr, some 0, some ct1⟩ :: R) r = .ok r') :
+    ∃ r'', execEvs d st (⟨.read, w + siz1, some fr, none, some ct1⟩ :: R) r = .ok r'' ∧ SameRun r' r'' := by
+  simp only [execEvs] at h
+  split at h
+  · cases h
+  · rename_i ra hra
+    split at h
+    · cases h
+    · rename_i rb hrb
+      -- decompose the two reads
+      unfold execEv Run.read at hra hrb
+      simp only [hcur] at hra
+      by_cases hl1 : r.ofs + w > bs.length
+      · simp [hl1] at hra
+      · simp only [hl1, if_false] at hra
+        cases hs1 : FrameSet.setFrameBytes d r.fs (List.take w (List.drop r.ofs bs)) fr none none with
+        | error e => simp [hs1] at hra
+        | ok fs1 =>
+          simp only [hs1] at hra
+          cases hra
+          simp only at hrb
+          by_cases hl2 : r.ofs + w + siz1 > bs.length
+          · simp [hl2] at hrb
+          · simp only [hl2, if_false] at hrb
+            cases hs2 : FrameSet.setFrameBytes d fs1 (List.take siz1 (List.drop (r.ofs + w) bs)) fr (some 0) (some ct1) with
+            | error e => simp [hs2] at hrb
+            | ok fs2 =>
+              simp only [hs2] at hrb
+              cases hrb
+              -- what the indirect read did
+              unfold FrameSet.setFrameBytes at hs1
+              have h1 : ¬ d.recMode ≠ 1 := by simp [hi.hrm]
+              simp only [h1, if_false, hi.hw] at hs1
+              have hlw : (List.take w (List.drop r.ofs bs)).length = w := by
+                rw [List.length_take, List.length_drop]; omega
+              have hl : ¬ (List.take w (List.drop r.ofs bs)).length < w := by omega
+              simp only [hl, if_false, List.take_take, Nat.min_self] at hs1
+              cases hx : xDecode d.depthRc (beWord (List.take w (List.drop r.ofs bs))) with
+              | error e => simp [hx] at hs1
+              | ok x =>
+                simp only [hx] at hs1
+                by_cases hfr : fr < r.fs.xvec.length
+                · simp only [hfr, if_true, hlw, ne_eq, not_true_eq_false, if_false, Except.ok.injEq] at hs1
+                  subst hs1
+                  have hby : List.take w (List.take (w + siz1) (List.drop r.ofs bs)) = List.take w (List.drop r.ofs bs) := by
+                    rw [List.take_take]; congr 1; omega
+                  have hby2 : List.drop w (List.take (w + siz1) (List.drop r.ofs bs)) = List.take siz1 (List.drop (r.ofs + w) bs) := by
+                    rw [List.drop_take, List.drop_drop]; congr 1; omega
+                  have hmerged := setFrameBytes_merged d p w hi r.fs fs2 (List.take (w + siz1) (List.drop r.ofs bs)) fr ct1 x
+                    (by rw [List.length_take, List.length_drop]; omega) (by rw [hby]; exact hx) hfr (by rw [hby2]; exact hs2)
+                  obtain ⟨ops, hex⟩ := exec_read d st r t bs (w + siz1) fr none (some ct1) fs2 hcur (by omega) hmerged
+                  simp only [execEvs, hex]
+                  refine execEvs_same d st R _ _ r' ?_ h
+                  exact ⟨hcur.symm, by simp only; omega, rfl⟩
+                · simp [hfr] at hs1
+
+
+/-! ### one record with an indirect word -/
+
+/-- X of the first loaded frame of a record: the record's own X word when the first selected offset `a` is 0;
+otherwise `a·spacing` added to the record's X word for the first loaded record, and to the X of the previously loaded
+frame for every later record (the rule behind finding F7) -/
+def entryBase (sp xrec : Int) (a : Nat) (prev : Option Int) : Int :=
+  if a = 0 then xrec else match prev with
+    | none => xrec + (a : Int) * sp
+    | some pv => pv + (a : Int) * sp
+
+/-- the implied X values of the frames loaded from one record -/
+def entryXs (sp xrec : Int) (a step len : Nat) (prev : Option Int) : List Int :=
+  entryBase sp xrec a prev :: xsFrom (entryBase sp xrec a prev) step sp len
+
+/-- `prev` is the X of the previously loaded frame (none for the first loaded record) -/
+def PrevOk (xv : List (Option Int)) (frInt : Nat) (prev : Option Int) : Prop :=
+  (frInt = 0 ∧ prev = none) ∨ (0 < frInt ∧ ∃ pv, prev = some pv ∧ xv[frInt - 1]? = some (some pv))
+
+theorem exec_extrap_head (d : Dfsr) (st : Store) (rr : Run) (xv : List (Option Int)) (frInt a : Nat) (cf ct : Option Nat)
+    (xrec sp : Int) (prev : Option Int) (ha : 0 < a) (hxv : rr.fs.xvec = xv.set frInt (some xrec)) (hfr : frInt < xv.length)
+    (hsp : rr.fs.frameSpacing = some sp) (hprev : PrevOk xv frInt prev) :
+    execEv d st rr ⟨.extrap, a, some frInt, cf, ct⟩
+      = .ok { rr with fs := { rr.fs with xvec := xv.set frInt (some (entryBase sp xrec a prev)) } } := by
+  have hne : ¬ a = 0 := by omega
+  rcases hprev with ⟨h0, hp⟩ | ⟨h0, pv, hp, hpv⟩
+  · subst h0 hp
+    have hx : rr.fs.xvec[if 0 = 0 then 0 else 0 - 1]? = some (some xrec) := by
+      simp only [if_true, hxv]; rw [List.getElem?_set]; simp [hfr]
+    rw [exec_extrap d st rr a 0 cf ct xrec sp hx hsp (by rw [hxv]; simpa using hfr)]
+    simp only [hxv, List.set_set, entryBase, hne, if_false]
+  · subst hp
+    have hx : rr.fs.xvec[if frInt = 0 then 0 else frInt - 1]? = some (some pv) := by
+      have : ¬ frInt = 0 := by omega
+      simp only [this, if_false, hxv]; rw [List.getElem?_set]
+      have : ¬ frInt = frInt - 1 := by omega
+      simp [this, hpv]
+    rw [exec_extrap d st rr a frInt cf ct pv sp hx hsp (by rw [hxv]; simpa using hfr)]
+    simp only [hxv, List.set_set, entryBase, hne, if_false]
+
+/-- state after an event, given by properties (the operation log is left open) -/
+def StateIs (r : Run) (cur : Option (Nat × List Nat)) (ofs : Nat) (fs : FrameSet) : Prop :=
+  r.cur = cur ∧ r.ofs = ofs ∧ r.fs = fs
+
+theorem step_seek (d : Dfsr) (st : Store) (r : Run) (t : Nat) (bs : List Nat)
+    (hfind : Store.find st t = some bs) (hhead : bs.head? = some d.dataType) (hlen : 2 ≤ bs.length) :
+    ∃ r0, execEv d st r ⟨.seekLr, t, none, none, none⟩ = .ok r0 ∧ StateIs r0 (some (t, bs)) 2 r.fs := by
+  obtain ⟨ops, h⟩ := exec_seek d st r t bs none none none hfind hhead hlen
+  exact ⟨_, h, rfl, rfl, rfl⟩
+
+theorem step_indr (d : Dfsr) (p : Plan) (w : Nat) (hi : IndCtx d p w) (st : Store) (r0 : Run) (t : Nat) (bs : List Nat)
+    (fs : FrameSet) (fr : Nat) (x : Int) (h0 : StateIs r0 (some (t, bs)) 2 fs) (hlen : 2 + w ≤ bs.length)
+    (hx : xDecode d.depthRc (beWord ((bs.drop 2).take w)) = .ok x) (hfr : fr < fs.xvec.length) :
+    ∃ r1, execEv d st r0 ⟨.read, w, some fr, none, none⟩ = .ok r1 ∧
+      StateIs r1 (some (t, bs)) (2 + w) { fs with xvec := fs.xvec.set fr (some x) } := by
+  obtain ⟨h1, h2, h3⟩ := h0
+  obtain ⟨ops, h⟩ := exec_indr d p w hi st r0 t bs fr x h1 (by rw [h2]; exact hlen) (by rw [h2]; exact hx) (by rw [h3]; exact hfr)
+  exact ⟨_, h, h1, by simp only [h2], by simp only [h3]⟩
+
+theorem step_skip (d : Dfsr) (st : Store) (r : Run) (t : Nat) (bs : List Nat) (ofs : Nat) (fs : FrameSet) (siz : Nat)
+    (fr cf ct : Option Nat) (h0 : StateIs r (some (t, bs)) ofs fs) (hlen : ofs + siz ≤ bs.length) :
+    ∃ r1, execEv d st r ⟨.skip, siz, fr, cf, ct⟩ = .ok r1 ∧ StateIs r1 (some (t, bs)) (ofs + siz) fs := by
+  obtain ⟨h1, h2, h3⟩ := h0
+  obtain ⟨ops, h⟩ := exec_skip' d st r t bs siz fr cf ct h1 (by rw [h2]; exact hlen)
+  exact ⟨_, h, h1, by simp only [h2], h3⟩
+
+theorem step_extrap_head (d : Dfsr) (st : Store) (r : Run) (cur : Option (Nat × List Nat)) (ofs : Nat) (fs : FrameSet)
+    (frInt a : Nat) (cf ct : Option Nat) (xrec sp : Int) (prev : Option Int) (ha : 0 < a)
+    (h0 : StateIs r cur ofs { fs with xvec := fs.xvec.set frInt (some xrec) }) (hfr : frInt < fs.xvec.length)
+    (hsp : fs.frameSpacing = some sp) (hprev : PrevOk fs.xvec frInt prev) :
+    ∃ r1, execEv d st r ⟨.extrap, a, some frInt, cf, ct⟩ = .ok r1 ∧
+      StateIs r1 cur ofs { fs with xvec := fs.xvec.set frInt (some (entryBase sp xrec a prev)) } := by
+  obtain ⟨h1, h2, h3⟩ := h0
+  have := exec_extrap_head d st r fs.xvec frInt a cf ct xrec sp prev ha (by rw [h3]) hfr (by rw [h3]; exact hsp) hprev
+  exact ⟨_, this, h1, h2, by simp only [h3]⟩
+
+
+/-- **One record with an indirect word** (any channel subset): seeking to the record and executing the renumbered
+events generated for the offsets `a, a+step, …` succeeds and sets the implied X of the loaded rows `frInt, …` to
+`entryXs`: the rule of `entryBase` for the first one, then `step·spacing` more for each further one. -/
+theorem block_exec_ind (d : Dfsr) (st : Store) (t : Nat) (bs : List Nat) (n a step len frInt : Nat) (p : Plan) (w : Nat)
+    (sp xrec : Int) (c0 : Nat) (rest : List Nat) (hi : IndCtx d p w) (hstep : 0 < step)
+    (hltc : ∀ c ∈ c0 :: rest, c < d.chans.length) (hsorted : (c0 :: rest).Pairwise (· < ·))
+    (hfind : Store.find st t = some bs) (hhead : bs.head? = some d.dataType)
+    (hbs : bs.length = 2 + w + n * p.frameSize) (hx : xDecode d.depthRc (beWord ((bs.drop 2).take w)) = .ok xrec)
+    (hlast : a + len * step < n)
+    (r : Run) (hch : r.fs.chIdx = c0 :: rest)
+    (hrows : ∀ row ∈ r.fs.frames, row.length = sumN ((selChans d (c0 :: rest)).map Chan.numValues))
+    (hN : frInt + (len + 1) ≤ r.fs.frames.length) (hxl : r.fs.xvec.length = r.fs.frames.length)
+    (hsp : r.fs.frameSpacing = some sp) (prev : Option Int) (hprev : PrevOk r.fs.xvec frInt prev) :
+    ∃ a' b' c' evs r', sliceFromList (ap a step (len + 1)) = .ok (a', b', c') ∧
+      genEvents p a' b' c' (c0 :: rest) = .ok evs ∧
+      execEvs d st (⟨.seekLr, t, none, none, none⟩ :: renumber (ap a step (len + 1)) frInt evs 0) r = .ok r' ∧
+      r'.fs.chIdx = r.fs.chIdx ∧ r'.fs.frameSpacing = r.fs.frameSpacing ∧ r'.fs.frames.length = r.fs.frames.length ∧
+      (∀ row ∈ r'.fs.frames, row.length = sumN ((selChans d (c0 :: rest)).map Chan.numValues)) ∧
+      r'.fs.xvec = setVals r.fs.xvec frInt (entryXs sp xrec a step len prev) := by
+  obtain ⟨c, hc, hsl, hrl, hcstep⟩ := sliceFromList_ap a step len hstep
+  have hpi : p.indr = w := by rw [hi.hp]
+  have hwpos := hi.hwpos
+  have hnc : p.numChannels = d.chans.length := by rw [hi.hp]; simp [Plan.numChannels]
+  have hab : a < a + len * step + 1 := by omega
+  cases hret : retFrameEvents p (c0 :: rest) with
+  | mk pre r2 =>
+    obtain ⟨fevts, post⟩ := r2
+    have hgen := genEvents_ind p (c0 :: rest) a (a + len * step + 1) c pre post fevts (by omega) (by simp) hsorted
+      (by intro x hx; rw [hnc]; exact hltc x hx) hab hc hret
+    obtain ⟨_, _, _, hpre, _⟩ := retFrameEvents_spec p c0 rest hsorted 0 pre fevts post hret
+    have hb : ∀ i, (ap a step (len + 1))[0 + i]? = (rangeList a (a + len * step + 1) c)[i]? := by
+      intro i; rw [hrl, Nat.zero_add]
+    have hinc := ap_inc a step (len + 1) hstep
+    have hlenR : rangeLen a (a + len * step + 1) c = len + 1 := by
+      have : (rangeList a (a + len * step + 1) c).length = (ap a step (len + 1)).length := by rw [hrl]
+      simpa [rangeList, ap] using this
+    have han : (a + 1) * p.frameSize ≤ n * p.frameSize := Nat.mul_le_mul_right _ (by omega)
+    have han' : (a + 1) * p.frameSize = a * p.frameSize + p.frameSize := by ring
+    have hle2 := skip_le_frame p c0
+    have hfrl : frInt < r.fs.xvec.length := by omega
+    have hxs : xsFrom (entryBase sp xrec a prev) c sp len = xsFrom (entryBase sp xrec a prev) step sp len := by
+      by_cases hl0 : len = 0
+      · subst hl0; rfl
+      · rw [hcstep hl0]
+    have hst0 : ∀ (e : Ev), e.fr = some a → renumStep (ap a step (len + 1)) 0 e = 0 := by
+      intro e he
+      unfold renumStep
+      have : ¬ (0 + 1 < (ap a step (len + 1)).length ∧ ((ap a step (len + 1))[0 + 1]? = e.fr ∧ e.fr.isSome)) := by
+        intro ⟨_, he', _⟩
+        rw [he] at he'
+        have h0 : (ap a step (len + 1))[0]? = some a := by rw [ap_getElem]; simp
+        have := hinc 0 (0 + 1) a a (by omega) h0 he'
+        omega
+      rw [if_neg this]
+    have hstN : ∀ (e : Ev), e.fr = none → renumStep (ap a step (len + 1)) 0 e = 0 := by
+      intro e he; unfold renumStep; simp [he]
+    obtain ⟨r0, hs0, st0⟩ := step_seek d st r t bs hfind hhead (by omega)
+    obtain ⟨r1, hs1, st1⟩ := step_indr d p w hi st r0 t bs r.fs frInt xrec st0 (by omega) hx hfrl
+    -- the frame loop from the state "at the first selected channel of frame a, X[frInt] = base"
+    have hloop : ∀ (rr : Run), StateIs rr (some (t, bs)) (2 + w + a * p.frameSize + p.skipToChStart c0)
+          { r.fs with xvec := r.fs.xvec.set frInt (some (entryBase sp xrec a prev)) } →
+        ∃ r', execEvs d st (renumber (ap a step (len + 1)) frInt
+            (frameLoop p fevts post (mergedPostFramePre p pre post c) (a + len * step + 1) c (a + len * step + 1 - a) a none) 0) rr = .ok r' ∧
+          r'.fs.chIdx = r.fs.chIdx ∧ r'.fs.frameSpacing = r.fs.frameSpacing ∧ r'.fs.frames.length = r.fs.frames.length ∧
+          (∀ row ∈ r'.fs.frames, row.length = sumN ((selChans d (c0 :: rest)).map Chan.numValues)) ∧
+          r'.fs.xvec = setVals r.fs.xvec frInt (entryXs sp xrec a step len prev) := by
+      intro rr ⟨h1, h2, h3⟩
+      obtain ⟨r', hex, _, e1, e2, e3, e5, e4⟩ := frameLoop_exec_ind d st t bs n (a + len * step + 1) c (ap a step (len + 1)) frInt p w sp c0 rest
+        pre post fevts hi hc hltc hsorted hbs (by omega) hret hinc (a + len * step + 1 - a) a 0 0 rr (entryBase sp xrec a prev) hab
+        (Nat.le_refl _) hb (Or.inl rfl) h1 h2 (by rw [h3]; exact hch) (by rw [h3]; exact hrows) (by rw [hlenR, h3]; simpa using hN)
+        (by rw [h3]; simpa using hxl) (by rw [h3]; exact hsp) (by rw [h3]; simp [hfrl])
+      rw [h3] at e1 e2 e3 e4
+      refine ⟨r', hex, e1, e2, e3, e5, ?_⟩
+      rw [e4, hlenR, Nat.add_sub_cancel, hxs]; simp [entryXs, setVals]
+    unfold preIs at hpre
+    cases pre with
+    | some pr =>
+      simp only at hpre
+      obtain ⟨hty, hsz, hc0pos⟩ := hpre
+      have k1 := hstN ⟨.read, p.indr, none, none, none⟩ rfl
+      have k3 := hst0 ⟨pr.ty, a * p.frameSize + pr.siz, some a, pr.cf, pr.ct⟩ rfl
+      by_cases ha : 0 < a
+      · obtain ⟨r2, hs2, st2⟩ := step_extrap_head d st r1 _ _ r.fs frInt a none none xrec sp prev ha st1 hfrl hsp hprev
+        obtain ⟨r3, hs3, st3⟩ := step_skip d st r2 t bs _ _ (a * p.frameSize + pr.siz) (some frInt) pr.cf pr.ct st2 (by rw [hsz]; omega)
+        obtain ⟨r', hex, f1, f2, f3, f5, f4⟩ := hloop r3 (by rw [show 2 + w + a * p.frameSize + p.skipToChStart c0 = 2 + w + (a * p.frameSize + pr.siz) by rw [hsz]; omega]; exact st3)
+        refine ⟨a, a + len * step + 1, c, _, r', hsl, hgen, ?_, f1, f2, f3, f5, f4⟩
+        have k2 := hst0 ⟨.extrap, a, some a, none, none⟩ rfl
+        simp only [headInd, pendInd, ha, if_true, List.cons_append, List.nil_append, List.append_assoc, renumber_cons, k1, k2, k3]
+        simp only [Nat.add_zero, hpi, hty, execEvs, hs0, hs1, hs2, hs3]
+        exact hex
+      · have ha0 : a = 0 := by omega
+        subst ha0
+        have hbase : entryBase sp xrec 0 prev = xrec := by simp [entryBase]
+        obtain ⟨r3, hs3, st3⟩ := step_skip d st r1 t bs _ _ (0 * p.frameSize + pr.siz) (some frInt) pr.cf pr.ct st1 (by rw [hsz]; omega)
+        obtain ⟨r', hex, f1, f2, f3, f5, f4⟩ := hloop r3 (by rw [hbase, show 2 + w + 0 * p.frameSize + p.skipToChStart c0 = 2 + w + (0 * p.frameSize + pr.siz) by rw [hsz]; omega]; exact st3)
+        refine ⟨0, 0 + len * step + 1, c, _, r', hsl, hgen, ?_, f1, f2, f3, f5, f4⟩
+        simp only [headInd, pendInd, Nat.lt_irrefl, if_false, List.cons_append, List.nil_append, List.append_nil, renumber_cons, k1, k3]
+        simp only [Nat.add_zero, hpi, hty, execEvs, hs0, hs1, hs3]
+        exact hex
+    | none =>
+      simp only at hpre
+      subst hpre
+      have hA : p.skipToChStart 0 = 0 := skip_zero p
+      have k1 := hstN ⟨.read, p.indr, none, none, none⟩ rfl
+      by_cases ha : 0 < a
+      · obtain ⟨r2, hs2, st2⟩ := step_skip d st r1 t bs _ _ (a * p.frameSize) (some frInt) none (some 0) st1 (by omega)
+        obtain ⟨r3, hs3, st3⟩ := step_extrap_head d st r2 _ _ r.fs frInt a none none xrec sp prev ha st2 hfrl hsp hprev
+        obtain ⟨r', hex, f1, f2, f3, f5, f4⟩ := hloop r3 (by rw [hA]; exact st3)
+        refine ⟨a, a + len * step + 1, c, _, r', hsl, hgen, ?_, f1, f2, f3, f5, f4⟩
+        have k2 := hst0 ⟨.skip, a * p.frameSize, some a, none, some 0⟩ rfl
+        have k3 := hst0 ⟨.extrap, a, some a, none, none⟩ rfl
+        simp only [headInd, pendInd, ha, if_true, List.cons_append, List.nil_append, renumber_cons, k1, k2, k3]
+        simp only [Nat.add_zero, hpi, execEvs, hs0, hs1, hs2, hs3]
+        exact hex
+      · -- the indirect read is merged into the first read of frame 0
+        have ha0 : a = 0 := by omega
+        subst ha0
+        have hbase : entryBase sp xrec 0 prev = xrec := by simp [entryBase]
+        obtain ⟨r', hex, f1, f2, f3, f5, f4⟩ := hloop r1 (by rw [hbase, hA]; simpa using st1)
+        obtain ⟨e1, es, hfe, hty1, hcf1, hct1⟩ := retFrameEvents_first p 0 rest none post fevts hret
+        obtain ⟨ct1, hct1'⟩ := Option.isSome_iff_exists.1 hct1
+        subst hfe
+        have hfuel : 0 + len * step + 1 - 0 = (len * step) + 1 := by omega
+        rw [hfuel] at hgen hex
+        have hl0 : 0 < 0 + len * step + 1 := by omega
+        simp only [headInd, pendInd, Nat.lt_irrefl, if_false, List.nil_append] at hgen
+        -- both loops begin with the first frame's first event; everything behind it is the same list `T`
+        have hsplit : ∃ T, frameLoop p (e1 :: es) post (mergedPostFramePre p none post c) (0 + len * step + 1) c (len * step + 1) 0 none
+              = { e1 with fr := some 0 } :: T ∧
+            frameLoop p (e1 :: es) post (mergedPostFramePre p none post c) (0 + len * step + 1) c (len * step + 1) 0 (some p.indr)
+              = ⟨e1.ty, p.indr + e1.siz, some 0, none, e1.ct⟩ :: T := by
+          simp only [frameLoop, hl0, if_true, emitFrame]
+          cases hem : emitFrame 0 es none with
+          | mk evs pend' =>
+            simp only
+            by_cases hlast : 0 + c ≥ 0 + len * step + 1
+            · simp only [hlast, if_true, List.cons_append]; exact ⟨_, rfl, rfl⟩
+            · simp only [hlast, if_false, List.cons_append]; exact ⟨_, rfl, rfl⟩
+        obtain ⟨T, hT1, hT2⟩ := hsplit
+        rw [hT1, renumber_cons] at hex
+        rw [hT2] at hgen
+        have hk0 : renumStep (ap 0 step (len + 1)) 0 { e1 with fr := some 0 } = 0 := hst0 _ rfl
+        have hk0' : renumStep (ap 0 step (len + 1)) 0 ⟨e1.ty, p.indr + e1.siz, some 0, none, e1.ct⟩ = 0 := hst0 _ rfl
+        rw [hk0] at hex
+        have hplain : execEvs d st (⟨.read, w, some (frInt + 0), none, none⟩ ::
+            ⟨.read, e1.siz, some (frInt + 0), some 0, some ct1⟩ :: renumber (ap 0 step (len + 1)) frInt T 0) r0 = .ok r' := by
+          simp only [execEvs, Nat.add_zero, hs1]
+          have : ({ ty := e1.ty, siz := e1.siz, fr := some (frInt + 0), cf := e1.cf, ct := e1.ct } : Ev)
+              = ⟨.read, e1.siz, some frInt, some 0, some ct1⟩ := by rw [hty1, hcf1, hct1', Nat.add_zero]
+          simp only [this] at hex
+          exact hex
+        obtain ⟨r'', hex'', s1, s2, s3⟩ := merged_transfer d p w hi st r0 r' t bs (frInt + 0) e1.siz ct1 _ st0.1 hplain
+        refine ⟨0, 0 + len * step + 1, c, _, r'', hsl, hgen, ?_, by rw [← s3]; exact f1, by rw [← s3]; exact f2,
+          by rw [← s3]; exact f3, by rw [← s3]; exact f5, by rw [← s3]; exact f4⟩
+        rw [renumber_cons, hk0']
+        simp only [execEvs, hs0]
+        have : ({ ty := e1.ty, siz := p.indr + e1.siz, fr := some (frInt + 0), cf := none, ct := e1.ct } : Ev)
+            = ⟨.read, w + e1.siz, some (frInt + 0), none, some ct1⟩ := by rw [hty1, hct1', hpi]
+        rw [this]
+        exact hex''
+
 end TD.C06
